@@ -12,6 +12,11 @@ Everything the property is silent about is accepted: order of sinks, node names 
 is mutated (except for `copy_graph`), which of two equal nodes survives de-duplication, whether sub-graph sinks that
 no output selects are kept when the expanded node is not a sink, error texts.
 
+Not demanded either (the property does not state it, so changes there go unnoticed on purpose): that `fuse_nodes` offers
+only parents with a single consumer to the callback (fusing a shared parent duplicates work but denotes the same), that
+`split_graph` cuts an edge only when the keys differ (cutting inside a part still re-joins to the original), that
+`copy_graph` shares no node with its input.
+
 Sub-spaces (one `add_bounded` record each): copy / rename+join / deduplicate / fuse / split / expand / seeded random.
 
 FOUND DEFECTS (current /repo tree; the checks stay, each with its own class)
@@ -893,30 +898,36 @@ def run(out, tier, seed):
              else dict(copy=40, rename=80, dedup=100, fuse=100, split=230, expand=250, random=60))
 
     s3 = structs_upto(3)
-    # 4 nodes, "reduced": connected, single-input nodes use the first input name only
     s4full = list(enum_structs(4))
-    # 4 nodes, "core": reduced + all sinks are true sinks + at most 2 sinks
-    s4core = list(enum_structs(4, lone_y=False, connected=True, terminal_kinds="S", max_terminals=2))
+    # 4 nodes, "core": single-input nodes use the first input name only + all sinks are true sinks + at most 2 sinks
+    # (NOT restricted to connected graphs: two equal chains side by side are the smallest cascading de-duplication)
+    s4core = list(enum_structs(4, lone_y=False, terminal_kinds="S", max_terminals=2))
     if quick:
-        main4, main4_desc = s4core, "all connected 4-node DAGs whose single-input nodes use the first input name, with at most 2 sinks, all without outputs"
+        main4, main4_desc = s4core, "all 4-node DAGs whose single-input nodes use the first input name, with at most 2 sinks, all without outputs"
         side4, side4_desc = [], ""
     else:
         main4, main4_desc = s4full, "ALL 4-node DAGs"
-        side4, side4_desc = s4core, " + the connected 4-node DAGs with at most 2 output-less sinks"
+        side4, side4_desc = s4core, " + the 4-node DAGs with at most 2 output-less sinks whose single-input nodes use the first input name"
     s4one = [st for st in s4core if sum(1 for k, _i in st if k == "S") == 1]
     s5 = []
     if not quick:
         s5 = list(itertools.islice(enum_structs(5, lone_y=False, connected=True, terminal_kinds="S", max_terminals=1), 0, None, 5))
     side_schemes = [PREFIXY, PREFIXY2, ATTR, PARAM]
+    s2 = [st for st in s3 if len(st) <= 2]
+
+    def sidestructs(sch):
+        # the 'param' names make every transformation raise as soon as an input is called 'node'/'n': a sample is enough there
+        return s3 if sch is not PARAM else s2 + [st for st in s3 if len(st) == 3][::10]
+
     space = "ALL DAGs with 1-3 nodes (%d) + %s (%d)" % (len(s3), main4_desc, len(main4))
-    side3 = "; name sets 'prefix', 'prefix2' (names that are prefixes of / share characters with each other and contain '.'), 'attr' (names of Node attributes), 'param' (names of callback parameters) on the 1-3 node DAGs"
+    side3 = "; name sets 'prefix', 'prefix2' (names that are prefixes of / share characters with each other and contain '.'), 'attr' (names of Node attributes) on the 1-3 node DAGs, 'param' (names of callback parameters) on the 1-2 node DAGs and every 10th 3-node DAG"
     side = side3 + side4_desc
     if s5:
         space += " + every 5th (in enumeration order) of the connected 5-node DAGs with ONE output-less sink (%d)" % len(s5)
 
     # ---- copy
     rec = Rec(guard["copy"])
-    for sch, structs in [(s_, s3 + side4) for s_ in side_schemes] + [(PLAIN, s3 + main4 + s5)]:
+    for sch, structs in [(s_, sidestructs(s_) + side4) for s_ in side_schemes] + [(PLAIN, s3 + main4 + s5)]:
         for st in structs:
             if rec.over():
                 break
@@ -928,7 +939,7 @@ def run(out, tier, seed):
 
     # ---- rename / join
     rec = Rec(guard["rename"])
-    for sch, structs in [(s_, s3 + side4) for s_ in side_schemes] + [(PLAIN, s3 + main4 + s5)]:
+    for sch, structs in [(s_, sidestructs(s_) + side4) for s_ in side_schemes] + [(PLAIN, s3 + main4 + s5)]:
         rens = RENAMERS if sch in (PLAIN, PREFIXY) else RENAMERS[1:3]
         for st in structs:
             if rec.over():
@@ -947,7 +958,7 @@ def run(out, tier, seed):
     # ---- dedup
     rec = Rec(guard["dedup"])
     core4 = set(s4core)
-    for sch, structs in [(s_, s3) for s_ in side_schemes] + [(PLAIN, s3 + main4 + s5)]:
+    for sch, structs in [(s_, sidestructs(s_)) for s_ in side_schemes] + [(PLAIN, s3 + main4 + s5)]:
         for st in structs:
             if rec.over():
                 break
@@ -968,13 +979,13 @@ def run(out, tier, seed):
                 check_dedup(rec, env, spec, sch.tag)
     rec.samples.append({"transformation": "deduplicate_nodes", "graph": scheme_spec(s3[-1], PLAIN, ["p0"] * 3).json()})
     rec.emit(out, "deduplicate_nodes on all small DAGs x payload assignments", "exhaustive enumeration",
-             space + " x payloads from {p0,p1}: every assignment on 1-3 nodes" + (" and on the connected 4-node DAGs with at most 2 output-less sinks" if not quick else "")
+             space + " x payloads from {p0,p1}: every assignment on 1-3 nodes" + (" and on the 4-node DAGs with at most 2 output-less sinks whose single-input nodes use the first input name" if not quick else "")
              + ", 4 patterns (all equal, aabb, abab, abba) on the " + ("" if quick else "other ") + "4-node DAGs, 2 patterns (all equal, alternating) on " + ("" if quick else "5 nodes and on ") + "the other name sets (on 4 and 5 nodes a pattern other than all-equal is run only if it makes two nodes equal); "
              + describe_structs() + side3 + ". Non-trivial = at least two nodes of the input are equal in payload, outputs and inputs (something must be merged).")
 
     # ---- fuse
     rec = Rec(guard["fuse"])
-    for sch, structs in [(s_, s3) for s_ in side_schemes] + [(PLAIN, s3 + main4 + s5)]:
+    for sch, structs in [(s_, sidestructs(s_)) for s_ in side_schemes] + [(PLAIN, s3 + main4 + s5)]:
         for st in structs:
             if rec.over():
                 break
@@ -998,7 +1009,7 @@ def run(out, tier, seed):
 
     # ---- split
     rec = Rec(guard["split"])
-    for sch, structs in [(s_, s3) for s_ in side_schemes] + [(PLAIN, s3 + (s4one if quick else main4) + s5[::4])]:
+    for sch, structs in [(s_, sidestructs(s_)) for s_ in side_schemes] + [(PLAIN, s3 + (s4one if quick else main4) + s5[::4])]:
         for st in structs:
             if rec.over():
                 break
@@ -1011,11 +1022,16 @@ def run(out, tier, seed):
             else:
                 kmax = 2
             for keys in rgs(n, kmax):
+                if quick and n == 4 and max(keys) == 0:
+                    continue
                 check_split(rec, env, spec, sch.tag, keys)
     rec.samples.append({"transformation": "split_graph", "keys": [0, 1, 0], "graph": scheme_spec(s3[-1], PLAIN).json()})
     rec.emit(out, "split_graph on all small DAGs x key functions", "exhaustive enumeration",
-             (space if not quick else space.replace("at most 2 sinks", "ONE sink").replace("(%d)" % len(main4), "(%d)" % len(s4one)))
-             + " x EVERY partition of the nodes into at most 3 parts (quick tier: at most 2 parts on 4 nodes; 2 parts on the other name sets" + ("" if quick else " and on every 4th of the 5-node DAGs") + ") as key function; keys are fresh equal-but-not-identical tuples; "
+             (space.replace("every 5th", "every 20th").replace("(%d)" % len(s5), "(%d)" % len(s5[::4])) if not quick
+              else space.replace("at most 2 sinks", "ONE sink").replace("(%d)" % len(main4), "(%d)" % len(s4one)))
+             + (" x EVERY partition of the nodes into at most 3 parts (at most 2 parts on 5 nodes and on the other name sets)" if not quick
+                else " x EVERY partition of the nodes into at most 3 parts on 1-3 nodes, into exactly 2 parts on 4 nodes, into at most 2 parts on the other name sets")
+             + " as key function; keys are fresh equal-but-not-identical tuples; "
              + describe_structs() + side3 + ". Non-trivial = at least one edge crosses parts.")
 
     # ---- expand
@@ -1071,7 +1087,12 @@ def run_expand(out, env, quick, budget, s3, s4core):
     # sub-graph shapes used against the 3-node hosts: a single node that is source and leaf; source->leaf; two sources->one leaf;
     # source->mid->leaf; one multi-output source->two leaves; source->leaf + an inner sink; two sources, two leaves crossed
     small = pick_shapes(subs3, [("D", (0,)), ("DS", (0, 1)), ("DDS", (0, 0, 2)), ("DDS", (0, 1, 1)), ("MSS", (0, 1, 1)), ("MDS", (0, 2, 2)), ("DSD", (0, 1, 1))])
-    host4 = [st for st in s4core if any(len(i) == 2 for _k, i in st)][:: (60 if quick else 40)]
+    host4 = [st for st in s4core if any(len(i) == 2 for _k, i in st)][::40]
+    if quick:  # single-input nodes use the first input name only
+        hostsB = list(enum_structs(3, lone_y=False))
+        host4 = []
+    else:
+        hostsB = s3only + host4
 
     def go(host, sch, t, ss, v, mode):
         plan = plans_for(host, sch, t, ss, v, mode)
@@ -1091,7 +1112,7 @@ def run_expand(out, env, quick, budget, s3, s4core):
                         go(host, sch, t, ss, v, mode)
     # (B) every 3-node host (+ sampled 4-node hosts) x {each single node, all nodes} (thorough: every subset) x the 7 selected shapes
     for sch in (PLAIN, PREFIXY) if quick else (PLAIN, PREFIXY, PREFIXY2):
-        for hi, hs in enumerate(s3only + host4):
+        for hi, hs in enumerate(hostsB):
             if rec.over():
                 break
             host = scheme_spec(hs, sch)
@@ -1125,13 +1146,14 @@ def run_expand(out, env, quick, budget, s3, s4core):
              "(A) EVERY host DAG with 1-2 nodes (%d) x every non-empty set of expanded nodes x EVERY 1-2 node sub-graph (%d) x source choice {i-th source->i-th input, first source only, "
              "all sources->last input} x leaf choice {k-th output->k-th sub-sink, all outputs->last sub-sink} x map style {input_map+output_map, plain Graph (names do the mapping), "
              "input_map only, output_map only (entries that map a name to itself left out)}, name sets plain/'prefix'/'prefix2' (3 combinations for 'attr'/'param'); "
-             "(B) EVERY 3-node host DAG (%d) + a 1-in-%d sample of the connected 4-node DAGs with a two-input node (%d) x expanded set %s x 7 sub-graph shapes (single node; source->leaf; "
+             "(B) %s 3-node host DAG (%d)%s x expanded set %s x 7 sub-graph shapes (single node; source->leaf; "
              "two sources->leaf; source->mid->leaf; multi-output source->two leaves; with an inner sink; with a default-output leaf) x %d map combinations, name sets %s; "
              "(C) 6 fixed hosts (single sink, single source, chain, multi-output node with two consumers, two-input node behind a multi-output parent, two-input sink) x {middle node, all nodes} "
              "expanded x EVERY 1-3 node sub-graph (%d) x %s. In 'prefix'/'prefix2' the sub-graph node names are prefixes of / share characters with the expanded node's name. "
              "Sub-graph payloads are unique. Only valid expanders are run: every output of an expanded node selects exactly one sub-graph sink that has inputs or a default output. "
              "Non-trivial = an expanded node has an input or a consumer."
-             % (len(s2), len(subs2), len(s3only), 60 if quick else 40, len(host4), "{each single node, all nodes}" if quick else "every non-empty subset", 3 if quick else 6,
+             % (len(s2), len(subs2), "every" if not quick else "every (single-input nodes using the first input name)", len(hostsB) - len(host4),
+                "" if not host4 else " + a 1-in-40 sample of the 4-node DAGs (at most 2 output-less sinks) with a two-input node (%d)" % len(host4), "{each single node, all nodes}" if quick else "every non-empty subset", 3 if quick else 6,
                 "plain (3 combinations) and 'prefix' (alternating 2 of the 3)" if quick else "plain/'prefix'/'prefix2'", len(subs3),
                 "3 map combinations, name set rotating plain/'prefix'/'prefix2' per sub-graph" if quick else "all 16 map combinations x 3 name sets"))
 
